@@ -15,3 +15,6 @@ func VerifResetCPULimit() {
 func VerifSetCPULimit(n int) {
 	cpuLimit = make(chan unit, n)
 }
+
+// VerifCPULimitLen returns the number of tokens currently held.
+func VerifCPULimitLen() int { return len(cpuLimit) }
